@@ -7,7 +7,7 @@ from harness.tlc import run_tlc
 
 
 def p1(chk, two_procs=False, thorough=False):
-    c = dict(Procs='{"p1"}', MaxH=4, Targets="{1}", MaxSteps=6 if not thorough else 7)
+    c = dict(Procs='{"p1"}', MaxH=4, Targets="{1}", MaxSteps=6 if not thorough else 7, WithResume=True)
     r = run_tlc("PlanGraph", cfg=dict(spec="Spec", constants=c, invariants=["ValueFixedModuloKnown"], view="View", deadlock=False),
                 timeout=3000, coverage=True)
     chk.add_tlc("PlanGraph/one-process", r)
@@ -16,7 +16,7 @@ def p1(chk, two_procs=False, thorough=False):
     r = run_tlc("PlanGraph", cfg=dict(spec="Spec", constants=c, invariants=["ValueFixed"], view="View", deadlock=False), timeout=3000)
     chk.add_tlc("PlanGraph/as-is-design-violates-ValueFixed", r, expect_violation="ValueFixed")
     if two_procs:
-        c2 = dict(Procs='{"p1", "p2"}', MaxH=3 if not thorough else 4, Targets="{1}", MaxSteps=5 if not thorough else 6)
+        c2 = dict(Procs='{"p1", "p2"}', MaxH=3 if not thorough else 4, Targets="{1}", MaxSteps=5 if not thorough else 6, WithResume=False)
         r = run_tlc("PlanGraph", cfg=dict(spec="Spec", constants=c2, invariants=["ValueFixedModuloKnown"], view="View", deadlock=False),
                     timeout=3000, coverage=True)
         chk.add_tlc("PlanGraph/two-processes", r)
@@ -27,14 +27,14 @@ def p1(chk, two_procs=False, thorough=False):
 def interesting(hist):
     kinds = [st["a"] for st in hist]
     for k, a in enumerate(kinds):
-        if a in ("storelazy", "storeagain", "ship") and "compute" in kinds[k + 1:]:
+        if a in ("storelazy", "storeagain", "ship") and ("compute" in kinds[k + 1:] or "computeresume" in kinds[k + 1:]):
             return True
     return False
 
 
-def histories(chk, n, steps, seed, procs='{"p1"}', maxh=6, targets="{1, 2}", label="histories"):
+def histories(chk, n, steps, seed, procs='{"p1"}', maxh=6, targets="{1, 2}", label="histories", resume=False, want=None):
     """TLC -simulate: distinct complete histories (with the model's taint set and its `bad` verdict)."""
-    c = dict(Procs=procs, MaxH=maxh, Targets=targets, MaxSteps=steps)
+    c = dict(Procs=procs, MaxH=maxh, Targets=targets, MaxSteps=steps, WithResume=resume)
     out, seen, dull = [], set(), []
     rounds = 0
     while len(out) < n and rounds < 6:
@@ -49,6 +49,8 @@ def histories(chk, n, steps, seed, procs='{"p1"}', maxh=6, targets="{1, 2}", lab
                     continue
                 seen.add(body)
                 hrec = json.loads(body)
+                if want is not None and not want(hrec):
+                    continue
                 # random walks rarely store and then compute: keep mostly the histories that do (the others are kept as a minority)
                 if interesting(hrec["hist"]):
                     out.append(hrec)
@@ -63,9 +65,9 @@ def histories(chk, n, steps, seed, procs='{"p1"}', maxh=6, targets="{1, 2}", lab
     return out
 
 
-def exhaustive_histories(chk, steps, maxh, targets, label):
+def exhaustive_histories(chk, steps, maxh, targets, label, resume=False):
     """Every history of exactly `steps` calls within the bounds (no VIEW: distinct histories are distinct states)."""
-    c = dict(Procs='{"p1"}', MaxH=maxh, Targets=targets, MaxSteps=steps)
+    c = dict(Procs='{"p1"}', MaxH=maxh, Targets=targets, MaxSteps=steps, WithResume=resume)
     r = run_tlc("PlanGraph", cfg=dict(spec="Spec", constants=c, invariants=["Emit"], deadlock=False), workers=1, timeout=3000)
     chk.add_tlc(f"PlanGraph/{label}", r)
     out = []
